@@ -1300,7 +1300,7 @@ theorem walk_no_nil (F : String → Prop) (plain : Bool) (text : TextSet) (hcl :
           have hdv : ∀ dv : Except ExecErr Value, dv ≠ .error .nilTree →
               (match dv with
                 | .error er => (⟨out, some er⟩ : ExecRes)
-                | .ok d => if depth ≥ 1000 then ⟨out, some .depth⟩
+                | .ok d => if depth ≥ 2000 then ⟨out, some .depth⟩
                     else walkList plain text (depth + 1) f d d out tr.root).err ≠ some .nilTree := by
             intro dv hdv
             cases dv with
